@@ -32,8 +32,8 @@ ASSUMPTIONS = [
     "each particle's touched cells do not depend on the other particles (the kernel loops over particles independently)",
 ]
 EXHAUSTIVE_NOTE = {
-    'quick': 'all (n1d<=24) x (nthread in {2,3,5,16}) x (npartition None and every explicit 1..n1d) x offset {0, h/2}, quarter-cell particle set along coord plus every stripe boundary +-0..3 ulp, through O1',
-    'thorough': 'all (n1d<=64) x (nthread 2..16) x (npartition None and every explicit 1..n1d) x offset {0, h/2}, quarter-cell particle set along coord plus every stripe boundary +-0..3 ulp, through O1',
+    'quick': 'all (n1d<=24) x (nthread in {2,3,5,16}) x (npartition None and every explicit 1..n1d) x {array grid coord 0 offset 0|h/2, shape-tuple grid (48,n,2) coord 1 offset h/2, shape-tuple grid (2,48,n) coord 2 offset 0}, quarter-cell particle set along coord plus every stripe boundary +-0..3 ulp, through O1',
+    'thorough': 'all (n1d<=64) x (nthread 2..16) x (npartition None and every explicit 1..n1d) x {array grid coord 0 offset 0|h/2, shape-tuple grid (48,n,2) coord 1 offset h/2, shape-tuple grid (2,48,n) coord 2 offset 0}, quarter-cell particle set along coord plus every stripe boundary +-0..3 ulp, through O1',
 }
 
 
@@ -62,13 +62,17 @@ def _desc(draw, tier):
     npart = draw(st.one_of(st.none(), st.none(), st.integers(1, n1d), st.sampled_from([n1d // 2, n1d // 3, n1d // 4, (n1d - 1) // 3, 2, 4]).map(lambda v: max(v, 1))))
     dtype = draw(st.sampled_from(['f4', 'f4', 'f8']))
     box = draw(st.sampled_from([1.0, 123.0, 2000.0, 64.0, 7.3]))
-    offk = draw(st.sampled_from(['0', 'half', 'rand']))
-    offfrac = {'0': 0.0, 'half': 0.5, 'rand': draw(st.floats(0.0, 0.999))}[offk]
+    offk = draw(st.sampled_from(['0', 'half', 'rand', 'cells']))
+    # offset in cells along coord: 0, half a cell, a random sub-cell value, or several cells (the parameter is a plain shift of the deposit; any value below the box is handled by the wrap)
+    offfrac = {'0': 0.0, 'half': 0.5, 'rand': draw(st.floats(0.0, 0.999)), 'cells': draw(st.integers(1, max(1, n1d // 2))) + draw(st.sampled_from([0.0, 0.5, 0.25]))}[offk]
+    osizes = [draw(st.sampled_from([other, other, 8, 32, 96])), draw(st.sampled_from([other, other, other, 48]))]
+    gridkind = draw(st.sampled_from(['array', 'array', 'tuple', 'tuple', 'int']))
     # particles: list of (boundary kind, index, ulp shift) along coord; other coords choose one of two cells
     npt = draw(st.integers(1, 40))
     pts = draw(st.lists(st.tuples(st.sampled_from(['stripe', 'stripe', 'half', 'cell', 'frac', 'edge']), st.integers(0, 400), st.integers(-2, 2), st.integers(0, 1), st.floats(0, 1, exclude_max=True)), min_size=npt, max_size=npt))
     return dict(n1d=n1d, other=other, coord=coord, nthread=nthread, npartition=npart, sort=draw(st.booleans()), dtype=dtype, box=box, offfrac=offfrac,
-                weights=draw(st.booleans()), pts=[list(p) for p in pts], othercells=[draw(st.integers(0, other - 1)), draw(st.integers(0, other - 1))])
+                weights=draw(st.booleans()), pts=[list(p) for p in pts], othercells=[draw(st.integers(0, other - 1)), draw(st.integers(0, other - 1))],
+                osizes=osizes, gridkind=gridkind)
 
 
 def strategy(tier):
@@ -118,13 +122,21 @@ def positions(d):
             continue
         seen.add(float(x))
         out.append((x, oc))
-    shape = [d['other']] * 3
-    shape[d['coord']] = n1d
+    osz = list(d.get('osizes') or [d['other'], d['other']])
+    if d.get('gridkind') == 'int':
+        if n1d > 40:
+            osz = [d['other'], d['other']]  # an int grid is cubic: keep it small, fall back to an array of the generated shape
+        else:
+            osz = [n1d, n1d]
+    shape = []
+    it = iter(osz)
+    for ax in range(3):
+        shape.append(n1d if ax == d['coord'] else next(it))
     pos = np.empty((len(out), 3), dtype=dt)
-    ho = box / d['other']
     for i, (x, oc) in enumerate(out):
         cell = d['othercells'][oc]
-        pos[i, :] = dt((cell + 0.25) * ho)
+        for ax in range(3):
+            pos[i, ax] = dt((min(cell, shape[ax] - 1) + 0.25) * (box / shape[ax]))
         pos[i, d['coord']] = x
     return pos, tuple(shape), near
 
@@ -141,8 +153,8 @@ def nontrivial(d):
 
 def classes(d):
     if d.get('mode') == 'grid':
-        return ['enumerated', 'offset=half' if d['offhalf'] else 'offset=0']
-    c = ['nthread=1' if d['nthread'] == 1 else 'nthread>1', 'np=None' if d['npartition'] is None else 'np=explicit', 'coord=%d' % d['coord'], 'offset=' + ('0' if d['offfrac'] == 0 else 'half' if d['offfrac'] == 0.5 else 'rand'), d['dtype']]
+        return ['enumerated', 'offset=half' if d['offhalf'] else 'offset=0', 'variant=' + d.get('variant', 'a0')]
+    c = ['nthread=1' if d['nthread'] == 1 else 'nthread>1', 'np=None' if d['npartition'] is None else 'np=explicit', 'coord=%d' % d['coord'], 'offset=' + ('0' if d['offfrac'] == 0 else 'half' if d['offfrac'] == 0.5 else 'rand' if d['offfrac'] < 1 else 'cells'), d['dtype'], 'grid=' + d.get('gridkind', 'array')]
     if d.get('mode') == 'grid':
         c.append('enumerated')
     return c
@@ -219,13 +231,18 @@ def _run_parallel(tsc, pos, shape, box, d, offset, weights, nthread, capture):
     if capture:
         tsc._tsc_parallel = seam
     try:
-        grid = np.zeros(shape, dtype=np.float64)
+        kind = d.get('gridkind', 'array')
+        if kind == 'int' and not (shape[0] == shape[1] == shape[2]):
+            kind = 'array'
+        grid = np.zeros(shape, dtype=np.float64) if kind == 'array' else (tuple(int(x) for x in shape) if kind == 'tuple' else int(shape[0]))
         with warnings.catch_warnings():
             warnings.simplefilter('ignore')
             try:
-                tsc.tsc_parallel(pos.copy(), grid, box, weights=weights, nthread=nthread, npartition=d['npartition'], sort=bool(d.get('sort')), coord=d['coord'], offset=offset, wrap=True)
+                grid = tsc.tsc_parallel(pos.copy(), grid, box, weights=weights, nthread=nthread, npartition=d['npartition'], sort=bool(d.get('sort')), coord=d['coord'], offset=offset, wrap=True)
             except ValueError:
                 return None, caps
+        if tuple(grid.shape) != tuple(shape):
+            raise Violation('grid-shape', 'tsc_parallel returned a grid of shape %s for densgrid=%r' % (grid.shape, shape))
     finally:
         tsc._tsc_parallel = orig
     return grid, caps
@@ -265,12 +282,12 @@ def run_case(d):
             raise Violation('tsc-concurrent-stripes', why)
     # O2: differential against the single-threaded deposit
     d1 = dict(d, npartition=None)
-    ref, _ = _run_parallel(tsc, pos, shape, box, d1, offset, weights, 1, False)
+    ref, _ = _run_parallel(tsc, pos, shape, box, dict(d1, gridkind='array'), offset, weights, 1, False)
     if ref is None:
         raise Violation('serial-rejected', 'nthread=1 default configuration rejected')
     tot = float(np.abs(ref).sum()) + 1e-30
     err = float(np.abs(grid - ref).max())
-    if not (err <= 1e-10 * tot):
+    if not (err <= (1e-10 if grid.dtype == np.float64 else 64 * float(np.finfo(np.float32).eps)) * tot):
         raise Violation('parallel-differs-from-serial', 'max |parallel - serial| = %g (total weight %g) for n1d=%d nthread=%d npartition=%r stripes=%d' % (err, tot, d['n1d'], d['nthread'], d['npartition'], nst))
     return {'classes': cls}
 
@@ -282,11 +299,11 @@ def exhaustive(tier, shard, nshards):
     nmax = 24 if tier == 'quick' else 64
     k = 0
     for n1d in range(2, nmax + 1):
-        for offk in (0, 1):
+        for offk, variant in ((0, 'a0'), (1, 'a0'), (1, 't1'), (0, 't2')):
             k += 1
             if k % nshards != shard:
                 continue
-            yield {'mode': 'grid', 'n1d': n1d, 'offhalf': offk, 'box': 64.0 if (n1d + offk) % 3 == 0 else 123.0, 'dtype': 'f4', 'nthreads': [2, 3, 5, 16] if tier == 'quick' else list(range(2, 17))}
+            yield {'mode': 'grid', 'variant': variant, 'n1d': n1d, 'offhalf': offk, 'box': 64.0 if (n1d + offk) % 3 == 0 else 123.0, 'dtype': 'f4', 'nthreads': [2, 3, 5, 16] if tier == 'quick' else list(range(2, 17))}
 
 
 def _run_grid(tsc, d):
@@ -295,11 +312,19 @@ def _run_grid(tsc, d):
     dt = np.float32
     h = box / n1d
     xs = np.unique(np.clip(np.array([q * h / 4 for q in range(4 * n1d + 1)], dtype=dt), 0, dt(box)))
-    shape = (n1d, 2, 2)
-    pos = np.empty((len(xs), 3), dtype=dt)
-    pos[:, 0] = xs
-    pos[:, 1] = dt(0.25 * box / 2)
-    pos[:, 2] = dt(0.25 * box / 2)
+    variant = d.get('variant', 'a0')
+    coord = {'a0': 0, 't1': 1, 't2': 2}[variant]
+    shape = {'a0': (n1d, 2, 2), 't1': (48, n1d, 2), 't2': (2, 48, n1d)}[variant]
+    gridkind = 'array' if variant == 'a0' else 'tuple'
+
+    def place(xarr):
+        pp = np.empty((len(xarr), 3), dtype=dt)
+        for ax in range(3):
+            pp[:, ax] = dt(0.25 * box / shape[ax])
+        pp[:, coord] = xarr
+        return pp
+
+    pos = place(xs)
     offset = float(dt(0.5 * h)) if d['offhalf'] else 0.0
     nacc = nrej = 0
     seen = {}
@@ -316,16 +341,12 @@ def _run_grid(tsc, d):
                     if 0 <= x <= dt(box):
                         extra.append(x)
             allx = np.unique(np.concatenate([xs, np.array(extra, dtype=dt)]))
-            pp = np.empty((len(allx), 3), dtype=dt)
-            pp[:, 0] = allx
-            pp[:, 1] = dt(0.25 * box / 2)
-            pp[:, 2] = dt(0.25 * box / 2)
-            ext_cache[nst] = pp
+            ext_cache[nst] = place(allx)
         return ext_cache[nst]
 
     for nthread in d.get('nthreads', range(2, 17)):
         for npq in [None] + list(range(1, n1d + 1)):
-            dd = {'npartition': npq, 'coord': 0, 'sort': False}
+            dd = {'npartition': npq, 'coord': coord, 'sort': False, 'gridkind': gridkind}
             grid, caps = _run_parallel(tsc, pos, shape, box, dd, offset, None, nthread, True)
             if grid is None:
                 nrej += 1
@@ -335,7 +356,7 @@ def _run_grid(tsc, d):
             if nst > 2:
                 grid, caps = _run_parallel(tsc, extended(nst), shape, box, dd, offset, None, nthread, True)
             starts = caps[0][1]
-            key = starts.tobytes() + caps[0][0][:, 0].tobytes()
+            key = starts.tobytes() + caps[0][0][:, coord].tobytes()
             if key in seen:
                 why = seen[key]
             else:
